@@ -465,17 +465,25 @@ func (session *ServerCommandSession) handleSetup(requestCtx nazahttp.HttpReqMsgC
 	if session.pubSession != nil {
 		if err = session.pubSession.SetupWithConn(requestCtx.Uri, rtpConn, rtcpConn); err != nil {
 			Log.Errorf("[%s] setup conn error. err=%+v", session.uniqueKey, err)
+			// the session did not take the two connections: nobody else will release them
+			_ = rtpConn.Dispose()
+			_ = rtcpConn.Dispose()
 			return err
 		}
 		htv = fmt.Sprintf(HeaderTransportServerRecordTmpl, rRtpPort, rRtcpPort, lRtpPort, lRtcpPort)
 	} else if session.subSession != nil {
 		if err = session.subSession.SetupWithConn(requestCtx.Uri, rtpConn, rtcpConn); err != nil {
 			Log.Errorf("[%s] setup conn error. err=%+v", session.uniqueKey, err)
+			// the session did not take the two connections: nobody else will release them
+			_ = rtpConn.Dispose()
+			_ = rtcpConn.Dispose()
 			return err
 		}
 		htv = fmt.Sprintf(HeaderTransportServerPlayTmpl, rRtpPort, rRtcpPort, lRtpPort, lRtcpPort)
 	} else {
 		Log.Errorf("[%s] setup but session not exist.", session.uniqueKey)
+		_ = rtpConn.Dispose()
+		_ = rtcpConn.Dispose()
 		return nazaerrors.Wrap(base.ErrRtsp)
 	}
 
